@@ -1107,7 +1107,6 @@ func (s *ClientSession) processAsyncMessage(message *AsyncMessage) {
 						go func() {
 							publisher.Close(context.Background())
 						}()
-						return
 					}
 				}
 			}
@@ -1118,7 +1117,6 @@ func (s *ClientSession) processAsyncMessage(message *AsyncMessage) {
 					go func() {
 						publisher.Close(context.Background())
 					}()
-					return
 				}
 			}
 		}()
